@@ -634,7 +634,10 @@ def g8(ctx):
             ok = r is not None and r[0] == 'call' and r[2] == 'pointer::KanalPtr::read' and r[3][0][0] in ('ref', 'rawptr') and r[3][0][1] == own_ptr
             if not ok or len([e for e in p.events if e.kind == 'call']) != 1:
                 ctx.violate(b.key, p, 'Signal::assume_init is not exactly `self.ptr.read()`: %s' % fmt(r))
-    b = body('load_and_drop', True)
+    # (optional: without the helper a future has to spell `_ = self.sig.ptr.read()` out, which the future rules see as such)
+    b = ctx.body(SIGK + 'load_and_drop') if ctx.has_async() else None
+    if b is None and ctx.has_async():
+        ctx.note('%sload_and_drop not present' % SIGK)
     if b is not None:
         ctx.instance(b.key)
         for p, evs in ret_paths(ctx, b):
